@@ -144,7 +144,7 @@ LeafWhys(c, lf) ==
     IF res.kind = "ok" /\ res.str # Concat(res.toks, 1) THEN "P:C05:String()-is-not-the-concatenation-of-token-values" ELSE "ok",
     IF res.kind = "ok" /\ ~SameFloat(res.ent, c.ent) THEN "P:C06:Password.Entropy-differs-from-recipe-Entropy()" ELSE "ok",
     IF lf.det = 0 THEN "P:C09:same-choices-from-the-source-gave-a-different-result" ELSE "ok",
-    IF res.kind = "ok" /\ lf.reads = 0 THEN "P:C09:password-produced-without-reading-the-random-source" ELSE "ok",
+    IF res.kind = "ok" /\ lf.reads = 0 /\ info.A >= 2 THEN "P:C09:password-produced-without-reading-the-random-source" ELSE "ok",   \* a one-character alphabet is no choice
     IF r.len >= 1 /\ lf.nd > c.maxTrials * r.len THEN "P:C13:more-attempts-than-MaxTrials" ELSE "ok",
     IF res.kind = "err" /\ res.err = "failrate" /\ ~info.refAllowed THEN "P:C13:refused-although-success-chance-is-comfortably-above-threshold" ELSE "ok",
     IF res.kind = "ok" /\ info.refRequired THEN "P:C13:not-refused-although-requirements-cannot-be-met-reliably" ELSE "ok",
